@@ -207,11 +207,6 @@ func (w *World) DumpGlobals() error {
 			if !ok || !dumpable(v.Type(), 0) {
 				continue
 			}
-			// skip variables declared by harness files
-			pos := p.Fset.Position(v.Pos())
-			if strings.Contains(filepath.Base(pos.Filename), "zz_vp_") {
-				continue
-			}
 			names = append(names, n)
 		}
 		if len(names) == 0 {
